@@ -7,6 +7,7 @@ import Mathlib.Tactic.LinearCombination
 `e t = exp(-2πi t)` on `ℝ → ℂ` is a character, `e 0 = 1`, `e z = 1` for integers, its kernel is exactly `ℤ`; hence it
 has root-of-unity orthogonality for every length (so none of the theorems is vacuous).
 -/
+open scoped C01
 namespace C03Lemmas
 open Complex
 
